@@ -148,3 +148,162 @@ func flatFieldKeySorts(so *Sorts, t types.Type) map[string]string {
 	}
 	return out
 }
+
+// Elements of slices/arrays whose element type is a struct are flattened sub-objects as well:
+// element i of backing array a is the object elem!S(a, i); its fields live in S's field maps.
+// So &s[i] is a first-class reference and callees' writes through it are visible.
+
+func (so *Sorts) ElemFn(elem types.Type) string {
+	tb := so.tb
+	name := "elem!" + mangle(typeName(elem))
+	if _, ok := tb.decls[name]; ok {
+		return name
+	}
+	tb.DeclFun(name, []string{"Ref", "Int"}, "Ref")
+	ua := tb.DeclFun("unarr"+name, []string{"Ref"}, "Ref")
+	ui := tb.DeclFun("unidx"+name, []string{"Ref"}, "Int")
+	tb.DeclFun("emb_tag", []string{"Ref"}, "Int")
+	tb.DeclFun("obj_base", []string{"Ref"}, "Ref")
+	if so.embIDs == nil {
+		so.embIDs = map[string]int{}
+	}
+	id := len(so.embIDs) + 1
+	so.embIDs[name] = id
+	a := tb.BoundVar("a", "Ref")
+	i := tb.BoundVar("i", "Int")
+	e := tb.App(name, "Ref", a, i)
+	tb.AddAxiom("elem "+name, tb.Quant(true, []*Term{a, i}, tb.And(
+		tb.Eq(tb.App(ua, "Ref", e), a),
+		tb.Eq(tb.App(ui, "Int", e), i),
+		tb.Eq(tb.App("emb_tag", "Int", e), tb.Int(int64(id))),
+		tb.Eq(tb.App("obj_base", "Ref", e), tb.App("obj_base", "Ref", a)),
+		tb.Not(tb.Eq(e, tb.Const("null", "Ref")))), e))
+	return name
+}
+
+func (fc *FnCtx) elemRef(arr, idx *Term, elem types.Type) *Term {
+	return fc.tb.App(fc.so.ElemFn(elem), "Ref", arr, idx)
+}
+
+// structElems reports whether slices/arrays of this element type use flattened element objects.
+func structElems(elem types.Type) bool {
+	_, ok := isStructType(elem)
+	return ok
+}
+
+// assumeZeroElems: the element objects of a freshly allocated array are zero. The array is not yet
+// allocated, so its previous contents are unobservable: they are taken to be zero already (no heap
+// update is needed, which keeps unrelated predicates over the same field maps stable).
+func (fc *FnCtx) assumeZeroElems(st *State, arr *Term, elem types.Type) {
+	tb := fc.tb
+	i := tb.BoundVar("zi", "Int")
+	e := fc.elemRef(arr, i, elem)
+	var facts []*Term
+	var walk func(ref *Term, t types.Type)
+	walk = func(ref *Term, t types.Type) {
+		s, _ := isStructType(t)
+		for k := 0; k < s.NumFields(); k++ {
+			switch a := fc.heapFieldAddr(ref, t, k).(type) {
+			case *Term:
+				walk(a, s.Field(k).Type())
+			case *Addr:
+				facts = append(facts, tb.Eq(fc.loadRoot(a, st), fc.so.Zero(s.Field(k).Type())))
+			}
+		}
+	}
+	walk(e, elem)
+	if len(facts) > 0 {
+		fc.assume(st, tb.Quant(true, []*Term{i}, tb.And(facts...), e))
+	}
+}
+
+// flatPath: one scalar (non-struct) field of a flattened struct type, reached from the object
+// reference through a chain of emb functions.
+type flatPath struct {
+	key   string
+	embs  []string // emb function names, outermost object first
+	ftype types.Type
+}
+
+func (fc *FnCtx) flatPaths(t types.Type) []flatPath {
+	var out []flatPath
+	var walk func(t types.Type, embs []string)
+	walk = func(t types.Type, embs []string) {
+		s, _ := isStructType(t)
+		for k := 0; k < s.NumFields(); k++ {
+			f := s.Field(k)
+			if _, isS := isStructType(f.Type()); isS {
+				walk(f.Type(), append(append([]string{}, embs...), fc.so.Emb(t, f.Name())))
+				continue
+			}
+			out = append(out, flatPath{key: fieldKey(t, f.Name()), embs: append([]string{}, embs...), ftype: f.Type()})
+		}
+	}
+	walk(t, nil)
+	return out
+}
+
+func (fc *FnCtx) applyEmbs(ref *Term, embs []string) *Term {
+	for _, e := range embs {
+		ref = fc.tb.App(e, "Ref", ref)
+	}
+	return ref
+}
+
+// appendStructs: append(s, vs...) for slices whose elements are flattened struct objects, with a
+// literal number of appended elements (the varargs form). Both outcomes are kept: in place when
+// capacity allows, otherwise a fresh array holding a copy of the old elements.
+func (fc *FnCtx) appendStructs(elem types.Type, s, add *Term, st *State) Val {
+	tb := fc.tb
+	n, ok := litInt(tb.App("s_len", "Int", add))
+	if !ok || n > 4 {
+		fc.unsup("append of a non-literal number of struct elements")
+	}
+	ln := tb.App("s_len", "Int", s)
+	cp := tb.App("s_cap", "Int", s)
+	off := tb.App("s_off", "Int", s)
+	arr := tb.App("s_arr", "Ref", s)
+	newLen := tb.Add(ln, tb.Int(n))
+	fits := tb.And(tb.Le(newLen, cp), tb.Not(tb.Eq(arr, tb.Const("null", "Ref"))))
+	fresh := fc.freshRef(st, "app")
+	newCap := tb.Fresh("appcap", "Int")
+	fc.assume(st, tb.Ge(newCap, newLen))
+	elemFn := fc.so.ElemFn(elem)
+	elemTag := int64(fc.so.embIDs[elemFn])
+	addArr, addOff := tb.App("s_arr", "Ref", add), tb.App("s_off", "Int", add)
+	for _, fp := range fc.flatPaths(elem) {
+		srt := ArraySort("Ref", fc.so.Sort(fp.ftype))
+		m := fc.heapGet(st, fp.key, srt)
+		at := func(mm *Term, a, i *Term) *Term { return tb.Select(mm, fc.applyEmbs(fc.elemRef(a, i, elem), fp.embs)) }
+		// in place
+		inplace := m
+		for k := int64(0); k < n; k++ {
+			dst := fc.applyEmbs(fc.elemRef(arr, tb.SIdx(off, tb.Add(ln, tb.Int(k))), elem), fp.embs)
+			inplace = tb.Store(inplace, dst, at(m, addArr, tb.SIdx(addOff, tb.Int(k))))
+		}
+		// fresh array: defined point-wise
+		fr := tb.Fresh("app!"+fp.key, srt)
+		x := tb.BoundVar("x", "Ref")
+		// walk back from x to the element object
+		e := x
+		conds := []*Term{}
+		for j := len(fp.embs) - 1; j >= 0; j-- {
+			conds = append(conds, tb.Eq(tb.App("emb_tag", "Int", e), tb.Int(int64(fc.so.embIDs[fp.embs[j]]))))
+			e = tb.App("un"+fp.embs[j], "Ref", e)
+		}
+		idx := tb.App("unidx"+elemFn, "Int", e)
+		conds = append(conds, tb.Eq(tb.App("emb_tag", "Int", e), tb.Int(elemTag)), tb.Eq(tb.App("unarr"+elemFn, "Ref", e), fresh),
+			tb.Le(tb.Int(0), idx), tb.Lt(idx, ln))
+		// x must be exactly the path applied to that element (tags make the chain unique)
+		conds = append(conds, tb.Eq(fc.applyEmbs(fc.elemRef(fresh, idx, elem), fp.embs), x))
+		fc.assume(st, tb.Quant(true, []*Term{x}, tb.Eq(tb.Select(fr, x),
+			tb.Ite(tb.And(conds...), at(m, arr, tb.SIdx(off, idx)), tb.Select(m, x))), tb.Select(fr, x)))
+		freshM := fr
+		for k := int64(0); k < n; k++ {
+			dst := fc.applyEmbs(fc.elemRef(fresh, tb.Add(ln, tb.Int(k)), elem), fp.embs)
+			freshM = tb.Store(freshM, dst, at(m, addArr, tb.SIdx(addOff, tb.Int(k))))
+		}
+		fc.heapSet(st, fp.key, tb.Ite(fits, inplace, freshM))
+	}
+	return tb.App("mk_slice", "Slice", tb.Ite(fits, arr, fresh), tb.Ite(fits, off, tb.Int(0)), newLen, tb.Ite(fits, cp, newCap))
+}
